@@ -37,11 +37,13 @@ never holds a path twice, so `WF` needs to be assumed for directories and plain 
 (`C17_items_exact_raw`). `C17_zip_entries_exact_partial`: when no two entries of the archive share
 a canonical spelling, EVERY listable entry is an artifact under its canonical name with its own
 bytes – `a//b.info`, `a/./b.info`, `./a.info` are used exactly like `a/b.info`, `a.info`
-(review item 8; silently unused before the fix). With two entries of one canonical spelling the
-commit promises "the first one spelled that way"; that is FALSE of the code
-(`C17_zip_listed_is_first_false`: `zip_index` prefers an entry whose raw name is the canonical
-spelling, and otherwise takes the first entry of that spelling DIRECTORY ENTRIES INCLUDED – finding
-C17-zip-same-canonical-name-reads-other-entry).
+(review item 8; silently unused before the fix). With several entries of one canonical spelling
+exactly ONE is the artifact: the first in index order that is not a directory entry and has a safe
+name – it is listed, sniffed AND read; the later ones are skipped with a warning
+(`C17_zip_entries_exact`, full strength since fix 99c0f28; before it `zip_index` preferred an entry
+whose raw name is the canonical spelling and otherwise took the first entry of that spelling
+DIRECTORY ENTRIES INCLUDED: `C17_old_lookup_read_other_entry`, the repaired finding
+C17-zip-same-canonical-name-reads-other-entry, witnesses in corpus/C17).
 Domain restriction of the whole property (review item 34): the archives of a layout are DISJOINT
 sets of files. `Arg` cannot say that two archives hold the same physical file; an argument given
 twice, or a directory and one of its sub-directories, are layouts in which every shared file is an
@@ -365,19 +367,26 @@ theorem C17_canonical_name_witnesses :
     rawIsDir [100, 47] = true ∧ rawIsDir [100, 92] = true ∧ rawIsDir [100] = false := by
   decide
 
-/-- Every entry is an artifact under its canonical name. If no two entries of the archive's index
-(directory entries included) share a canonical spelling, the listing is exactly: every entry that
-is not a directory entry and whose name is safe, in index order, under its canonical spelling,
-with its own first bytes and its own content. In particular a respelled entry (`a//b.info`) is used
-exactly like the canonically spelled one. -/
-theorem C17_zip_entries_exact_partial (es : List RawEntry) (hd : CanonDistinct (crateIndex es)) :
+/-- Exactly what a zip archive contributes, for EVERY list of raw entries (respelled, repeated,
+several of one canonical spelling, directory entries, hostile names): per canonical spelling the
+FIRST entry of the crate's index that is not a directory entry and has a safe name – under that
+spelling, with its own first bytes (sniffed) and its own content (read / extracted). Later entries
+of the same spelling are skipped, directory entries and unsafe names never count. -/
+theorem C17_zip_entries_exact (es : List RawEntry) : zipListed es = zipFirst es :=
+  zipListed_eq_zipFirst es
+
+/-- … in particular, if no two entries of the archive's index (directory entries included) share a
+canonical spelling, EVERY entry that is not a directory entry and whose name is safe is an artifact,
+in index order, under its canonical spelling, with its own bytes: a respelled entry (`a//b.info`)
+is used exactly like the canonically spelled one. -/
+theorem C17_zip_entries_all_used (es : List RawEntry) (hd : CanonDistinct (crateIndex es)) :
     zipListed es = ((crateIndex es).filter listable).map RawEntry.toFile :=
   listIx_of_distinct _ hd
 
 /-- … and for an archive without repeated raw names the index is the entry list itself. -/
 theorem C17_respelled_entries_used (es : List RawEntry) (hn : (es.map (·.name)).Nodup)
     (hd : CanonDistinct es) : zipListed es = (es.filter listable).map RawEntry.toFile := by
-  have := C17_zip_entries_exact_partial es (by rw [crateIndex_of_nodup es hn]; exact hd)
+  have := C17_zip_entries_all_used es (by rw [crateIndex_of_nodup es hn]; exact hd)
   rwa [crateIndex_of_nodup es hn] at this
 
 /-- The zip crate's index: names pairwise distinct; a repeated raw name keeps the place of its first
@@ -387,37 +396,22 @@ theorem C17_crate_index (es : List RawEntry) :
     crateIndex [⟨[100], [1], 1⟩, ⟨[101], [2], 2⟩, ⟨[100], [3], 3⟩] = [⟨[100], [3], 3⟩, ⟨[101], [2], 2⟩] :=
   ⟨crateIndex_names_nodup es, by decide⟩
 
-/-- Full statement (what the fix's commit message and the comment of `zip_index` promise): of
-several entries with one canonical spelling the FIRST listable one is the artifact – listed,
-sniffed AND read. -/
-def C17_zip_listed_is_first_stmt : Prop := ∀ es : List RawEntry, zipListed es = zipFirst es
-
-/-- FALSE of the code. `a//b.info` (content 1) followed by `a/b.info` (content 2): the first is
-listed and sniffed, the second is read (`index_for_name` finds the raw name `a/b.info`). -/
-theorem C17_zip_listed_is_first_false : ¬ C17_zip_listed_is_first_stmt := by
-  intro h
-  have := h [⟨[97, 47, 47, 98, 46, 105, 110, 102, 111], [84, 78, 58], 1⟩,
-             ⟨[97, 47, 98, 46, 105, 110, 102, 111], [84, 78, 58], 2⟩]
-  revert this
+/-- Regression examples about the lookup BEFORE fix 99c0f28 (`zipIndexOld`): with `a//b.info`
+(content 1) followed by `a/b.info` (content 2) it found the second entry under the listed name
+`a/b.info`; with a DIRECTORY entry `x.info/` (content 7) in front of `./x.info` (content 3) it found
+the directory entry. Today's lookup finds the listed entry in both. -/
+theorem C17_old_lookup_read_other_entry :
+    let a1 : RawEntry := ⟨[97, 47, 47, 98, 46, 105, 110, 102, 111], [84, 78, 58], 1⟩
+    let a2 : RawEntry := ⟨[97, 47, 98, 46, 105, 110, 102, 111], [84, 78, 58], 2⟩
+    let d : RawEntry := ⟨[120, 46, 105, 110, 102, 111, 47], [], 7⟩
+    let f : RawEntry := ⟨[46, 47, 120, 46, 105, 110, 102, 111], [84, 78, 58], 3⟩
+    zipIndexOld [a1, a2] [97, 47, 98, 46, 105, 110, 102, 111] = some a2 ∧
+    zipIndex [a1, a2] [97, 47, 98, 46, 105, 110, 102, 111] = some a1 ∧
+    zipIndexOld [d, f] [120, 46, 105, 110, 102, 111] = some d ∧
+    zipIndex [d, f] [120, 46, 105, 110, 102, 111] = some f ∧
+    zipListed [a1, a2] = [⟨[97, 47, 98, 46, 105, 110, 102, 111], [84, 78, 58], 1⟩] ∧
+    zipListed [d, f] = [⟨[120, 46, 105, 110, 102, 111], [84, 78, 58], 3⟩] := by
   decide
-
-/-- A second witness: a DIRECTORY entry `x.info/` (content 7, empty in practice) in front of
-`./x.info` (content 3): the file entry is listed, the directory entry's data are read – the
-coverage of `x.info` is lost although it is the only entry of that name. -/
-theorem C17_zip_dir_entry_read_instead :
-    zipListed [⟨[120, 46, 105, 110, 102, 111, 47], [], 7⟩,
-               ⟨[46, 47, 120, 46, 105, 110, 102, 111], [84, 78, 58], 3⟩]
-      = [⟨[120, 46, 105, 110, 102, 111], [84, 78, 58], 7⟩] ∧
-    zipFirst [⟨[120, 46, 105, 110, 102, 111, 47], [], 7⟩,
-              ⟨[46, 47, 120, 46, 105, 110, 102, 111], [84, 78, 58], 3⟩]
-      = [⟨[120, 46, 105, 110, 102, 111], [84, 78, 58], 3⟩] := by
-  decide
-
-/-- Under exactly the guard both witnesses violate – no two entries of the index share a canonical
-spelling – the listed entry is the one that is read. -/
-theorem C17_zip_listed_is_first_partial (es : List RawEntry) (hd : CanonDistinct (crateIndex es)) :
-    zipListed es = zipFirst es :=
-  listGo_eq_firstGo hd [] _ (fun _ he => he)
 
 /-- the review's probe (item 8): a zip holding `a//b.info` and `c.info` delivers two items, the
 respelled one with its own content; `./d.info` too; `../e.info` and the directory entry do not -/
